@@ -23,7 +23,8 @@ func init() {
 			"expiry = SigningTime.Add(ExpiryDuration) only when the duration is non-zero (patched into the request, computed ahead of it from the very value stored as SigningTime, or computed / stored by a module helper that is handed these); the plugin request carries ExpiryDuration/time.Second; " +
 			"the blob digest algorithm at signing is table[keySpec.SignatureAlgorithm().Hash()] with a fail-closed miss (anchored at the signer's invocation of the generator; the argument is decided per origin, so the table may be applied next to the invocation or in a module helper); " +
 			"(e) the blob descriptor generator (function literal or bound method of an object filled with the inputs; made by a builder both wrappers call, by the wrappers themselves or through a constructor) is {given media type, digest and byte count of the given reader under the requested algorithm}, " +
-			"runs the same code for SignBlob and VerifyBlob and holds the same inputs (reader, ContentMediaType and UserMetadata exactly as given). " +
+			"runs the same code for SignBlob and VerifyBlob and holds the same inputs (reader, ContentMediaType and UserMetadata exactly as given); " +
+			"every function that holds a generator evaluates it at most once on every path (it drains the caller's reader: counted callee-ward over the call tree, through closures, bound methods, objects holding it and interface hand-overs). " +
 			"Values are decided per origin: through phis (single exit with a defaulted local), through module helpers (callee parameters = call arguments) and, for helpers that are handed less than the signer, at their closed list of call sites.",
 		NotCov:  "the sign->verify round trip itself for all keys and formats (cryptography and envelope encoders of notation-core-go).",
 		Trusted: []string{"go/types, go/ssa", "encoding/json", "notation-core-go signature (Sign, Verify, KeySpec)"},
@@ -37,6 +38,7 @@ func runC07(c *Ctx) {
 	c07Tables(c)
 	c07Payload(c)
 	c07BlobDescriptor(c)
+	c07GeneratorOnce(c)
 	_ = w
 	c.MinCount("", 20, "agreement obligations")
 }
